@@ -9,6 +9,7 @@ import (
 	banktypes "github.com/cosmos/cosmos-sdk/x/bank/types"
 	"math/big"
 	"os"
+	"sort"
 	"strings"
 	"time"
 
@@ -101,6 +102,8 @@ type Outcome struct {
 	Admitted           bool
 	Priority           int64
 	GasWanted, GasUsed int64
+	// ExtHoldRefused: an "extHold" release of a hold the harness had placed was refused
+	ExtHoldRefused bool
 }
 
 // Violation is a failed invariant with a stable id.
@@ -142,10 +145,13 @@ type Machine struct {
 	lastEth      *ethBuilt               // the last Ethereum transaction sent by an "ethTx" action
 	blockGas     uint64                  // gas limits of the Ethereum transactions included in the block in progress
 	rawCapBits   int                     // cap on integer arguments of raw precompile calls (listed overflow findings)
-	restartNext  bool                    // restart the node after the commit of the current block
-	Restarts     int                     // restarts performed
-	absentNext   []int                   // consensus keys missing from the last commit of the next block
-	downSticky   []int                   // generator memory: the keys that were down in the previous downtime block
+	ExtHolds     map[string]int          // record key -> holds placed by the harness as a second AVS and not yet released
+	ExtPlaced    int
+	ExtReleased  int
+	restartNext  bool  // restart the node after the commit of the current block
+	Restarts     int   // restarts performed
+	absentNext   []int // consensus keys missing from the last commit of the next block
+	downSticky   []int // generator memory: the keys that were down in the previous downtime block
 }
 
 type avsCommitRec struct {
@@ -604,6 +610,47 @@ func (m *Machine) Apply(a *Action) (Outcome, error) {
 			}
 		}
 		return fromCall(c.Precompile(m.caller(a.Caller), sim.AssetsPrecompileAddr, c.AssetsABI(), "registerToken", uint32(a.Lz), tok, regTokenDecimals(a), fmt.Sprintf("tok-%d", a.N), "probe", fmt.Sprintf("TOK%d,Ethereum,8%s", a.N, []string{"", ",0", ",7", ",10", ",0,0x01", ",1", ",2"}[a.Ident%7])))
+	case "extHold":
+		// a second AVS-like module places (or releases) a hold on a pending undelegation through
+		// the delegation keeper's public hold interface, the one x/dogfood uses
+		uds, err := c.App.DelegationKeeper.AllUndelegations(c.Ctx())
+		if err != nil {
+			return Outcome{}, err
+		}
+		var keys []string
+		for _, u := range uds {
+			k := string(delegationtypes.GetUndelegationRecordKey(u.BlockNumber, u.LzTxNonce, u.TxHash, u.OperatorAddr))
+			if a.Neg == (m.ExtHolds[k] > 0) && (a.Neg || m.ExtHolds[k] < 2) {
+				keys = append(keys, k)
+			}
+		}
+		if len(keys) == 0 {
+			return Outcome{OK: false, Included: false, Note: "no pending record to hold or release"}, nil
+		}
+		sort.Strings(keys)
+		k := keys[a.N%len(keys)]
+		var herr error
+		guardCall(c, "extHold", func() {
+			if a.Neg {
+				herr = c.App.DelegationKeeper.DecrementUndelegationHoldCount(c.Ctx(), []byte(k))
+			} else {
+				herr = c.App.DelegationKeeper.IncrementUndelegationHoldCount(c.Ctx(), []byte(k))
+			}
+		})
+		if herr != nil {
+			return Outcome{OK: false, Included: true, ExtHoldRefused: a.Neg, Note: "hold interface: " + herr.Error() + " " + fmt.Sprintf("%q", k)}, nil
+		}
+		if m.ExtHolds == nil {
+			m.ExtHolds = map[string]int{}
+		}
+		if a.Neg {
+			m.ExtHolds[k]--
+			m.ExtReleased++
+		} else {
+			m.ExtHolds[k]++
+			m.ExtPlaced++
+		}
+		return Outcome{OK: true, Included: true}, nil
 	case "updToken":
 		as := m.W.Cfg.Assets[a.Asset]
 		return fromCall(c.Precompile(m.caller(a.Caller), sim.AssetsPrecompileAddr, c.AssetsABI(), "updateToken", uint32(as.LzID), pad32b(as.AddrBytes()), "probe-"+fmt.Sprint(a.N)))
